@@ -1,6 +1,6 @@
 """C14 -- imports bind the same objects to the same names."""
 import json, os, sys
-from common import Check, fresh_oneliner, StepLimit
+from common import Check, fresh_oneliner, load_known_findings, StepLimit
 import gen_prog, lower_common
 
 VEND = os.path.join(os.path.dirname(os.path.abspath(__file__)), "vend")
@@ -21,7 +21,7 @@ SEQUENCES = ["import pk.sub\nimport pk.sub\nfrom pk import sub as again", "from 
 def clean():
     import olv_log
     for k in list(sys.modules):
-        if k == 'pk' or k.startswith('pk.') or k == 'pk2':
+        if k == 'pk' or k.startswith('pk.') or k == 'pk2' or k == 'pk3' or k.startswith('pk3.'):
             del sys.modules[k]
     olv_log.LOG.clear()
 
@@ -142,6 +142,29 @@ def main(argv):
             pairs.append((src, (cfgs[0][1], cfgs[0][2])))
             if len(ck.samples) < 4 and place == 'function' and f in ("import pk.sub.deep", "from .sub import leaf"):
                 ck.sample({"form": f, "placement": place, "package": pkg, "import_log": o[1], "bindings": o[2]})
+    # a package that rebinds the attribute named like its submodule (known finding KF-D76: CPython binds getattr(pkg, name))
+    kfs = {k["kf"]: k for k in load_known_findings("C14") if k.get("status") == "open"}
+    kf_seen = set()
+    for place in ('module', 'function'):
+        src = program("import pk3.shadow as sh", place)
+        o = run(src, 'exec', None)
+        cfg = gen_prog.CONFIGS[0]
+        ck.case(f"{cfg}|None|{src}")
+        ck.count("placement:" + place)
+        try:
+            conv = ol.convert_code_string(src, configs=gen_prog.mk_configs(ol, cfg))
+            c = run(conv, 'eval', None)
+        except BaseException as e:
+            c = ('CONVERT/COMPILE ' + type(e).__name__ + ' ' + str(e)[:80],)
+            conv = None
+        if o != c:
+            if "KF-D76" in kfs and o[1] == c[1] and o[4] == c[4]:
+                # same modules imported in the same order, same sys.modules delta: only the object bound differs
+                kf_seen.add("KF-D76")
+            else:
+                failing.append((src, cfg, None, f"original = {o}; converted = {c}", conv))
+    for kf in sorted(kf_seen):
+        ck.known(kf, kfs[kf]["what"])
     clean()
     k_bad = []
     if b["driver_ok"]:
